@@ -129,6 +129,9 @@ def simple_seq_check(pid, plan, rule_extra=""):
             chk.cov["unlogged_sweep"] = dict(SWEEP, note="runs solved without logging; the suspects (outcome differs from the engine's own optimum) were re-run logged and are among the validated traces")
         chk.assumptions = SEQ_ASSUME
         extra_parts(chk, w, tier)
+        if SWEEP["runs"]:
+            chk.cov["unlogged_sweep"] = dict(SWEEP, note="sequential runs and free-running parallel runs solved without logging; the suspects (outcome differs from the engine's own "
+                                                          "optimum, or reported solution does not replay to the reported value) were re-run / written out and are among the validated traces")
         return chk.finish()
     return f
 
@@ -442,7 +445,7 @@ CHECKS.update({
 })
 
 add_par_part("C05", [("cutsweep", "allimpacted", 6, 40, 120, 3, 3), ("cutsweep", "allimpacted", 7, 15, 60, 3, 4), ("free", "allimpacted", 7, 40, 150, 6, 8)])
-add_par_part("C02", [("sched", "allimpacted", 6, 60, 200, 4, 3), ("cutsweep", "allimpacted", 6, 15, 50, 2, 3), ("free", "allimpacted", 6, 20, 80, 4, 8)])
+add_par_part("C02", [("sched", "allimpacted", 6, 60, 200, 4, 3), ("cutsweep", "allimpacted", 6, 15, 50, 2, 3), ("free", "allimpacted", 6, 20, 80, 4, 8, "--sweep", 250)])
 add_par_part("C09", [("sched", "allimpacted", 6, 80, 250, 4, 3) + tuple(FOCUS2), ("sched", "reconv", 8, 300, 700, 4, 3) + tuple(FOCUS), ("sched", "reconv", 8, 200, 500, 4, 3) + tuple(FOCUS2), ("sched", "reconv", 7, 150, 400, 4, 4) + tuple(FOCUS2)])
 add_par_part("C14", [("primal", "allimpacted", 6, 250, 600, 6, 3), ("primal", "allimpacted", 7, 80, 250, 6, 4)])
 
